@@ -23,7 +23,7 @@ REQUIRED_PROBES = ["coarsener_init", "greedy_prune"]
 REQUIRED_FEATURES = ["sched:sequential", "sched:pool", "sched:functor:reverse_eval_map", "sched:functor:eager_map",
                      "k>bins-of-every-chromosome", "chunksize:1", "algebra:chain", "algebra:merge-commute",
                      "mode:square", "mode:symm", "agg:max", "coarsen:spans>1", "family:variable", "family:trap",
-                     "family:coarse_trap"]
+                     "family:coarse_trap", "via:cli-coarsen"]
 SHARD_TIMEOUT = {"quick": 1800, "thorough": 7200}
 
 
@@ -135,7 +135,17 @@ def one_base(ctx, shard, i, rng):
                 if agg:
                     c.feature("agg:max")
                 cols = ["count", "score"] if two else None
-                if kind == "sequential":
+                if kind == "sequential" and x == 2:
+                    from click.testing import CliRunner
+                    from cooler.cli import cli
+                    args = ["coarsen", base, "-k", str(k), "-c", str(cs), "-o", out]
+                    if two:
+                        args += ["--field", "count", "--field", "score" + (":agg=max" if agg else "")]
+                    r = CliRunner().invoke(cli, args)
+                    c.feature("sched:sequential", "via:cli-coarsen")
+                    if r.exit_code != 0:
+                        raise (r.exception or RuntimeError(r.output[-300:]))
+                elif kind == "sequential":
                     cooler.coarsen_cooler(base, out, k, chunksize=cs, nproc=1, columns=cols, agg=agg)
                     c.feature("sched:sequential")
                 elif kind == "pool":
